@@ -302,6 +302,9 @@ func runCase(w *harness.W, c caseT) {
 			time.Sleep(20 * time.Millisecond)
 		}
 		finish(func() {
+			// if nothing handles the signal the worker dies here: the driver
+			// then judges this journal entry
+			writeJournal("signal-sent:" + c.Trigger)
 			syscall.Kill(os.Getpid(), sig)
 			// the library closes itself from its input goroutine: wait for
 			// the console to be closed
@@ -444,6 +447,20 @@ func (c check) Run(w *harness.W, b harness.Batch) {
 // recover handler closes Vaxis and panics again). The terminal state recorded
 // after the last console write decides the property.
 func (check) JudgeCrash(journal, panicVal, stack string) (bool, *harness.Violation) {
+	if strings.HasPrefix(panicVal, "exit: signal:") {
+		// the worker was killed by a signal while a signal case was in progress:
+		// the library had no handler installed, nobody restored the terminal
+		var j journalT
+		if err := json.Unmarshal([]byte(journal), &j); err != nil || !strings.HasPrefix(j.Phase, "signal-sent") {
+			return false, nil
+		}
+		d := diffTables(j.Prior, j.Last)
+		cb, _ := json.Marshal(j.Case)
+		return true, &harness.Violation{Key: "not-restored:signal:process-killed-without-handler",
+			What:     "the termination signal killed the process (" + panicVal + "): the library had no handler installed for this capability set, and the terminal was left as it was: " + strings.Join(d, "; "),
+			Case:     cb,
+			Observed: strings.Join(d, "; "), Expected: "the signal is handled: the terminal is restored before the process ends"}
+	}
 	if !strings.Contains(panicVal, panicMarker) {
 		return false, nil
 	}
